@@ -156,6 +156,9 @@ QUICK = [i for i, s in enumerate(SHARDS) if _quick(s)]
 
 @obligation(tier="quick", timeout=200, shards=SHARDS, quick_shards=QUICK,
             samples=[{"t0": 1, "t1": 0, "n0": 5, "n1": 2**31, "s": "x", "b": True, "fi": 0, "hx": True, "hy": False, "hc": False, "hin": False, "hz": False, "wp": 1, "wv": 3, "extra": True},
+                     {"t0": 1, "t1": 1, "n0": -2**31, "n1": 2**31 - 1, "s": "", "b": False, "fi": 9, "hx": True, "hy": True, "hc": False, "hin": True, "hz": False, "wp": 2, "wv": -2**31, "extra": False},
+                     {"t0": 1, "t1": 1, "n0": 0, "n1": -2**31 - 1, "s": "0", "b": False, "fi": 2, "hx": True, "hy": True, "hc": True, "hin": False, "hz": False, "wp": 2, "wv": 2**31 - 1, "extra": False},
+                     {"t0": 5, "t1": 5, "n0": 0, "n1": 0, "s": "x", "b": True, "fi": 9, "hx": True, "hy": False, "hc": False, "hin": False, "hz": False, "wp": 2, "wv": 0, "extra": False},
                      {"t0": 2, "t1": 1, "n0": -1, "n1": 1, "s": "RED", "b": False, "fi": 3, "hx": True, "hy": True, "hc": True, "hin": True, "hz": False, "wp": 0, "wv": 3, "extra": False}],
             symbolic=["n0, n1: int (unbounded) leaves", "s: str (all strings)", "b: bool", "wv: int value of the second variable"],
             selectors=["t0, t1: leaf kind tags 0..5", "fi: float catalogue index", "hx,hy,hc,hin,hz: input-object key presence bits", "wp: second variable absent/null/present", "extra: undeclared variable", "shard: type, default, value shape"],
